@@ -194,6 +194,8 @@ type frame struct {
 	C01Sig string
 	// the C11 signature raised (in addition to the C12 one) when the gate contradicts the verdict
 	C11Sig string
+	// SplitAt: byte offsets at which the message is cut into several WebSocket frames (fragmentation)
+	SplitAt []int
 }
 
 func (f *frame) sigClass() string {
@@ -215,6 +217,7 @@ func alphabet() []frame {
 	reqWant := &mocrelay.ClientReqMsg{SubscriptionID: "s1", ReqFilters: []*mocrelay.ReqFilter{{Kinds: []int64{1}, Limit: p64(5)}}}
 	add(frame{Class: "REQ", Type: text, Payload: []byte(`["REQ","s1",{"kinds":[1],"limit":5}]`), Want: reqWant})
 	add(frame{Class: "REQ surrounded by whitespace", Type: text, Payload: []byte("\n\t [\"REQ\" , \"s1\",\r\n{\"kinds\":[1],\"limit\":5} ] \n"), Want: reqWant})
+	add(frame{Class: "REQ sent as three fragments", Type: text, Payload: []byte(`["REQ","s1",{"kinds":[1],"limit":5}]`), Want: reqWant, SplitAt: []int{1, 12}})
 	add(frame{Class: "COUNT", Type: text, Payload: []byte(`["COUNT","c1",{"authors":["` + signerA.pub + `"]}]`),
 		Want: &mocrelay.ClientCountMsg{SubscriptionID: "c1", ReqFilters: []*mocrelay.ReqFilter{{Authors: []string{signerA.pub}}}}})
 	add(frame{Class: "CLOSE", Type: text, Payload: []byte(`["CLOSE","s1"]`), Want: &mocrelay.ClientCloseMsg{SubscriptionID: "s1"}})
